@@ -349,6 +349,15 @@ class TBls(_Abstract):
             return TBls(("leaf", frozenset(-(-v // a) * a for v in t[1])))
         if _aligned(t, a):
             return self  # padding an aligned set changes nothing
+        if t[0] == "cat":
+            # a prefix of aligned parts shifts what follows by multiples of the alignment: pad(A + R, a) = A + pad(R, a)
+            k = 0
+            while k < len(t) - 1 and _aligned(t[1 + k], a):
+                k += 1
+            if k:
+                rest = t[1 + k :]
+                r = TBls(rest[0] if len(rest) == 1 else ("cat",) + tuple(rest)).pad_to_alignment(a)
+                return TBls.concatenate([TBls(x) for x in t[1 : 1 + k]] + [r])
         return TBls(("pad", t, a))
 
     def repeat(self, k: Any) -> "TBls":
@@ -424,6 +433,10 @@ class TBls(_Abstract):
     @property
     def fixed_length(self) -> Any:
         return len(self.term[1]) == 1 if self.term[0] == "leaf" else AbsBool(("fixed", self.term))
+
+    def __iter__(self) -> Any:
+        # numerical expansion: the elements are not known here, only that they are this set's
+        return iter([("ELEMENTS-OF", self.term)])
 
     def __repr__(self) -> str:
         return show_term(self.term)
